@@ -200,7 +200,16 @@ def _report_ok(m, arch, sem, form, nports):
     fe._filename, fe._arch, fe._machine_model = "k.s", arch, m
     text = fe.full_analysis([f], g, ignore_unknown=False)
     d = fe.full_analysis_dict([f], g)
-    return "Combined Analysis Report" in text and len(d["Kernel"]) == 1 and len(d["Summary"]["PortPressure"]) == nports
+    ok = "Combined Analysis Report" in text and len(d["Kernel"]) == 1 and len(d["Summary"]["PortPressure"]) == nports
+    # the default CLI path: two balancing passes on the one-line kernel, then the reports again (forms with
+    # no / zero throughput only: they do not count towards the port sums the balancer works with)
+    if form.throughput:
+        return ok
+    sem.assign_optimal_throughput([f])
+    sem.assign_optimal_throughput([f])
+    text = fe.full_analysis([f], g, ignore_unknown=False)
+    d = fe.full_analysis_dict([f], g)
+    return ok and "Combined Analysis Report" in text and len(d["Kernel"]) == 1 and len(d["Summary"]["PortPressure"]) == nports
 
 
 def _instance_of(isa, pat):
